@@ -26,6 +26,8 @@ import (
 	"github.com/invopop/gobl/bill"
 	"github.com/invopop/gobl/dsig"
 	"github.com/invopop/gobl/tax"
+
+	"verifharness/c15docs"
 )
 
 type work struct {
@@ -285,6 +287,12 @@ func main() {
 	ops += coldOps
 	perProcs := map[string]int{}
 	regimesUsed := map[string]bool{}
+	fullBy := map[string]*work{}
+	fullOps := 0
+	regByCC := map[string]*tax.RegimeDef{}
+	for _, r := range regs {
+		regByCC[r.Country.String()] = r
+	}
 	for time.Now().Before(deadline) {
 		for _, gm := range procs {
 			if !time.Now().Before(deadline) {
@@ -299,6 +307,30 @@ func main() {
 			for _, w := range synBy[reg] {
 				if reference(w) {
 					batch = append(batch, w, w)
+				}
+			}
+			// ... and FULL documents (payment instructions / advances with one payment means key, terms, delivery,
+			// ordering; see c15docs) of that regime for a few seeded ORDERED add-on pairs, each next to the two
+			// single-add-on documents that share the pair's tables
+			means := c15docs.MeansKeys()
+			for i := 0; i < 3 && len(addonKeys) > 1; i++ {
+				a1, a2 := addonKeys[rng.Intn(len(addonKeys))], addonKeys[rng.Intn(len(addonKeys))]
+				mk := means[rng.Intn(len(means))]
+				kind := c15docs.Kinds[rng.Intn(3)]
+				for _, as := range [][]string{{a1, a2}, {a1}, {a2}} {
+					if len(as) == 2 && a1 == a2 {
+						continue
+					}
+					name := c15docs.Name(kind, reg, as, mk)
+					w := fullBy[name]
+					if w == nil {
+						w = &work{Name: name, data: c15docs.Full(kind, regByCC[reg], as, mk)}
+						fullBy[name] = w
+					}
+					if reference(w) {
+						batch = append(batch, w, w)
+						fullOps += 2
+					}
 				}
 			}
 			for i := 0; i < 12 && len(examples) > 0; i++ {
@@ -352,6 +384,6 @@ func main() {
 		ru = append(ru, r)
 	}
 	sort.Strings(ru)
-	emit(map[string]interface{}{"type": "totals", "operations": ops, "rounds": rounds, "differences": diffs, "workloads": len(ref),
+	emit(map[string]interface{}{"type": "totals", "operations": ops, "rounds": rounds, "differences": diffs, "workloads": len(ref), "full_document_operations": fullOps,
 		"nondeterministic_excluded": nondet, "cold_start_operations": coldOps, "per_gomaxprocs": perProcs, "regimes": ru})
 }
